@@ -56,9 +56,13 @@ def batch_oracle(ctx, lines, impl):
                 # whole statement (a clause that a dialect does not render binds none of them and is skipped)
                 if len(run) < 3 or len(set(run)) != len(run) or any(vals.count(x) != 1 for x in run):
                     continue
+                pos = [vals.index(x) for x in run]
+                if max(pos) - min(pos) + 1 != len(run):
+                    continue    # scattered: these are other occurrences of the same values, not this run
                 RUNS[0] += 1
-                if not contains_run(vals, run):
-                    verdicts[i] = "the values %s were given in this order but are bound in another order: %s" % (run, vals[:40])
+                if pos != list(range(pos[0], pos[0] + len(run))):
+                    verdicts[i] = "the values %s were given in this order but are bound in another order: %s" % (
+                        run, vals[min(pos):max(pos) + 1])
                     break
     ctx.cov["oracle_statements_scanned"] = checked
     ctx.cov["oracle_value_runs_checked"] = RUNS[0]
